@@ -376,7 +376,7 @@ theorem mask_emit_congr {st1 st2 : St} (h : st1.maskPartial = st2.maskPartial) (
 
 theorem runLoop_ok (fuel idx : Nat) (s : St) (bs : Bytes) (fin : EndState) (script : Script)
     (h : Head) (rest : Bytes) (fr : Framing)
-    (hh : readHead bs fin = .ok (h, rest)) (hf : framingOf h.headers = .ok fr) :
+    (hh : readHead bs fin = .ok (h, rest)) (hf : framingFor h.version h.headers = .ok fr) :
     runLoop (fuel + 1) idx s bs fin script =
       if isShort fr.kind rest = true then (if fin == .open then s.finish .waiting else s.finish .closed)
       else if (⟨Extracted.maxVersion.1, Extracted.maxVersion.2⟩ : Version).lt h.version = true then
@@ -402,7 +402,7 @@ theorem runLoop_ok (fuel idx : Nat) (s : St) (bs : Bytes) (fin : EndState) (scri
 
 theorem runLoopO_ok (fuel idx : Nat) (st : St) (s s0 : OSrc) (script : Script)
     (h : Head) (fr : Framing)
-    (hh : readHeadO s = (.ok h, s0)) (hf : framingOf h.headers = .ok fr) :
+    (hh : readHeadO s = (.ok h, s0)) (hf : framingFor h.version h.headers = .ok fr) :
     runLoopO (fuel + 1) idx st s script =
       match initialBodyO fr.kind s0 with
       | none => if s.fin == .open then st.finish .waiting else st.finish .closed
@@ -449,7 +449,7 @@ theorem runLoopO_vs_flat : ∀ (fuel idx : Nat) (st1 st2 : St) (bs : Bytes) (fin
       obtain ⟨h, rest⟩ := p
       rw [hr] at hh
       obtain ⟨orc1, hh⟩ := hh
-      cases hfr : framingOf h.headers with
+      cases hfr : framingFor h.version h.headers with
       | error e =>
         rw [runLoopO, runLoop, hh, hr]
         simp only [hfr]
@@ -481,6 +481,8 @@ theorem runLoopO_vs_flat : ∀ (fuel idx : Nat) (st1 st2 : St) (bs : Bytes) (fin
             · rw [f1, f2]
               exact ih idx _ _ r fin o' script (mask_emit_congr hst _ _ _)
           · rw [if_neg hv, if_neg hv]
+            have hfr : framingOf h.headers = .ok fr := by
+              rw [← framingFor_of_not_high h.version h.headers (by simpa using hv)]; exact hfr
             have hck' : (∃ ic, body = .chunked ic) → isChunkedReq h.headers = true := by
               intro hc
               have := hck hc
